@@ -236,6 +236,9 @@ func (g *treeGen) travStack(depth int) Node {
 			kids = append(kids, s)
 		default:
 			c := Node{"t": "cnd", "form": g.form(), "kw": []any{"k"}, "op": "Eq", "paren": false, "nspad": false, "enc": []any{}}
+			if g.rng.Intn(4) == 0 {
+				c["kw"] = []any{} // not valid by the built-in standard: Traverse does not care
+			}
 			switch g.rng.Intn(3) {
 			case 0:
 				c["ex"] = Node{"t": "leaf", "ty": "str", "v": []any{"v"}}
@@ -298,6 +301,8 @@ func leafTokens(x any) []string {
 		return Tokenize(strconv.FormatBool(tv))
 	case float64:
 		return Tokenize(strconv.FormatFloat(tv, 'g', -1, 64))
+	case float32:
+		return Tokenize(strconv.FormatFloat(float64(tv), 'g', -1, 32))
 	case *int:
 		if tv == nil {
 			return []string{"~"}
@@ -558,6 +563,8 @@ func ProjectStruct(x any) Node {
 		return Node{"t": "leaf", "ty": "int", "v": Tokenize(strconv.Itoa(tv))}
 	case bool:
 		return Node{"t": "leaf", "ty": "bool", "v": Tokenize(strconv.FormatBool(tv))}
+	case float32:
+		return Node{"t": "leaf", "ty": "f32", "v": Tokenize(strconv.FormatFloat(float64(tv), 'g', -1, 32))}
 	case []any:
 		return ProjectU(tv)
 	}
@@ -1009,7 +1016,7 @@ func (g *treeGen) eqStack(depth int) Node {
 			} else {
 				ex = g.eqStack(depth + 1)
 			}
-			kids = append(kids, Node{"t": "cnd", "form": g.form(), "kw": [][]any{{"k"}, {"K", "x"}, {"c"}}[g.rng.Intn(3)], "op": []string{"Eq", "Ne", "Ge", "like", "LIKE"}[g.rng.Intn(5)], "ex": ex,
+			kids = append(kids, Node{"t": "cnd", "form": g.form(), "kw": [][]any{{"k"}, {"K", "x"}, {"c"}}[g.rng.Intn(3)], "op": []string{"Eq", "Ne", "Ge", "like", "LIKE", "uslice"}[g.rng.Intn(6)], "ex": ex,
 				"paren": false, "nspad": false, "enc": []any{}})
 		}
 	}
